@@ -84,6 +84,14 @@ def cases(tier, rng):
                 ops += ["feed b " + good, "feed a " + jt, "recv", "recv", "send 4f4b", "wire a", "wire b", "send 4f4b", "wire a", "wire b"]
             out.append("c%d sock REP / %s" % (k, " / ".join(ops)))
             k += 1
+    # a connection that FAILS (undecodable bytes, cut inside a frame, reset) while another client's request is being served:
+    # the failure is reported by recv, the request stays pending, the reply goes to its requester
+    for bad, extra in (("040105", []), ("0009aabb", ["eof a"]), ("13", []), ("", ["rerr a ConnectionReset"])):
+        good = W.tok(W.msg([b"", b"b0"]))
+        ops = ["attach a REQ", "attach b REQ", "feed b " + good, "recv"] + (["feed a " + bad] if bad else []) + extra
+        ops += ["recv", "send 4f4b", "wire a", "wire b"]
+        out.append("c%d sock REP / %s" % (k, " / ".join(ops)))
+        k += 1
     # a request whose write fails changes nothing but the peer set: the next request goes out (to the next server), a recv
     # right after the failed send is still out of turn
     for kind in ("BrokenPipe", "ConnectionReset"):
@@ -144,7 +152,7 @@ def cases(tier, rng):
 
 
 def compare_filter(line):
-    return not line.startswith(("d", "w", "g"))      # the model assumes distinct identities and has no write faults
+    return not line.startswith(("d", "w", "g")) and " rerr " not in line      # the model assumes distinct identities and has no write faults
 
 
 def model_cases(case_lines):
